@@ -57,6 +57,12 @@ def pools_onehot(seed, nq=6, nt=8):
     Q = [oh(L) for L in [4, 4, 5, 7, 5, 6][:nq]]
     T = [oh(rng.randint(4, 6)) for _ in range(nt)]
     T[nt - 2] = Q[2].copy()
+    # the pooled target columns hold all four letters, so that no query column is equidistant to every target column (the
+    # integeriser divides by that range: all-equal similarities are outside tomtom's domain)
+    allfour = numpy.zeros((4, 5))
+    for j, ch in enumerate([0, 1, 2, 3, 0]):
+        allfour[ch, j] = 1
+    T[0] = allfour
     return Q, T
 
 
